@@ -332,4 +332,21 @@ def run (s : St) : List Ev → Option St
                | some s' => run s' es
                | none => none
 
+/-- a function read off a table, falling back to `d` beyond it -/
+def tabFn {α} (a : Array α) (d : Nat → α) (q : Nat) : α := if h : q < a.size then a[q] else d q
+
+/-- Execution aid of the trace acceptor: the same state with its per-payload functions re-tabulated
+(arrays over the ids below a bound), so that long traces do not pile up closures
+(`compact_eq` in Lemmas/Runtime: it is the same state). -/
+def St.compact (ids : List Nat) (s : St) : St :=
+  let r := Array.range (ids.foldl max 0 + 1)
+  let pay := r.map s.pay; let fl := r.map s.fl; let starts := r.map s.starts; let tid := r.map s.tid
+  let execs := r.map s.execs
+  let la := s.latch .aio; let lt := s.latch .trio; let lh := s.latch .thr
+  let ra := s.rtask .aio; let rt := s.rtask .trio; let rh := s.rtask .thr
+  { s with pay := tabFn pay s.pay, fl := tabFn fl s.fl, starts := tabFn starts s.starts, tid := tabFn tid s.tid,
+           execs := tabFn execs s.execs,
+           latch := fun f => match f with | .aio => la | .trio => lt | .thr => lh,
+           rtask := fun f => match f with | .aio => ra | .trio => rt | .thr => rh }
+
 end Cobald.Runtime
